@@ -21,6 +21,7 @@ import (
 	"github.com/anishathalye/porcupine"
 
 	"verif/harness/core"
+	"verif/harness/mapord"
 	"verif/harness/schedlib"
 )
 
@@ -317,7 +318,9 @@ func programs(alpha []string, threads, maxLen int) []Program {
 }
 
 func run(c *core.Ctx) {
+	mapord.Pin() // map iteration order is owned (pinned to the default) so that schedules replay exactly
 	rl := schedlib.NewRaceLog()
+	defer vsched.SetReducedPoints(false)
 	c.Bound("race_detector_attribution", rl.On)
 	if err := schedlib.SelfTest(rl); err != "" {
 		c.HarnessError("scheduler self-test failed: %s", err)
@@ -340,6 +343,7 @@ func run(c *core.Ctx) {
 			family{"2 clients x <=3 ops, 5-op alphabet", alphabet[:5], 2, 3, []int{-1}},
 		)
 	}
+	vsched.SetReducedPoints(true) // points before every acquiring operation only (after the self-test)
 	for _, f := range fams {
 		ps := programs(f.alpha, f.threads, f.maxLen)
 		c.Bound(f.name, map[string]any{"programs": len(ps), "preemption_bound": "unbounded (all interleavings)"})
@@ -365,5 +369,7 @@ func replay(c *core.Ctx) {
 		c.HarnessError("bad case: %v", err)
 		return
 	}
+	mapord.Pin()
+	vsched.SetReducedPoints(true)
 	schedlib.Replay(c, schedlib.NewRaceLog(), scenario(rc.Scenario, nil), rc.Choices, rc.Bound)
 }
